@@ -8,6 +8,8 @@ import Lemmas.WrapAppend
 import Props.C09
 import Props.C05
 import Props.C01
+import Props.C02
+import Lemmas.OverflowStable
 namespace TW.C14
 
 /-- splitting the joined lines at the line ending gives the lines back, when no line contains a
@@ -300,6 +302,240 @@ theorem fill_idempotent_optimal_safe (env : Env) (hsp : env.cw SP = 1) (mo : Min
     refine ⟨frs, hp, hlast, ?_⟩
     exact TW.C05.fits_one_line_optimal_safe env hsp mo o hb p halg hP l (hsafe l hl) n frs hp (hconf n)
       (by rw [hindent]; simp [displayWidth, dwFrom]; have := hfit l hl; unfold displayWidth at this; omega)
+  obtain ⟨h1, h2⟩ := fill_idempotent_of_stable env mo o t ls hw hne hno hstable
+  exact ⟨_, h2, h1⟩
+
+/-! ### lines that overflow (ASCII separator, no hyphenation) -/
+
+/-- where an overflowing line of the first result comes from: a single fragment without a space
+    which, with `break_words`, is a piece of `break_apart` -/
+structure Prov (env : Env) (o : Opts) (l : Text) : Prop where
+  nosp : SP ∉ l
+  ne : l ≠ []
+  brk : o.breakWords = true → o.width < displayWidth env.cw l →
+    ∃ w0 f, f ∈ breakApart env.cw o.width w0 ∧ f.word = l ∧ f.width = displayWidth env.cw l
+
+/-- an overflowing line with that provenance is stable -/
+theorem stable_of_prov (env : Env) (hcw : ∀ c, env.cw c ≤ c.utf8Size) (mo : MinimaOracle Int) (o : Opts)
+    (halg : o.alg = .firstFit) (hsep : o.sep = .ascii) (hspl : o.splitter = .none)
+    (hii : o.initialIndent = []) (hsi : o.subsequentIndent = [])
+    (l : Text) (hp : Prov env o l) (hover : o.width < displayWidth env.cw l) : Stable env mo o l := by
+  intro n
+  have hind : (if n = 0 then o.initialIndent else o.subsequentIndent) = [] := by split <;> assumption
+  have hnoshort : ¬ (blen l < o.width ∧ (if n = 0 then o.initialIndent else o.subsequentIndent).isEmpty = true) := by
+    intro h
+    have := dwFrom_le_blen env.cw hcw .normal l
+    unfold displayWidth at hover
+    omega
+  unfold wrapSingleLine
+  rw [if_neg hnoshort]
+  -- the fragments of the line: the line itself
+  have hW : (mkWord env.cw l []).width = displayWidth env.cw l := rfl
+  have hpipe : pipeline env o l (o.width - displayWidth env.cw o.subsequentIndent) = some [mkWord env.cw l []] := by
+    unfold pipeline
+    simp only [hsep, findWords, findWordsAscii_single env.cw l hp.ne hp.nosp]
+    rw [splitWords_nopoints env o.splitter [mkWord env.cw l []] (by
+      intro W hW'; simp only [List.mem_singleton] at hW'; subst hW'
+      exact ⟨by rw [hspl]; rfl, rfl⟩)]
+    simp only [hii, hsi, List.isEmpty_nil, if_true, displayWidth, dwFrom, Nat.sub_zero]
+    cases hbw : o.breakWords with
+    | false => simp
+    | true =>
+      simp only [if_true, breakWords, List.append_nil, Option.some.injEq]
+      have hlt : o.width < (mkWord env.cw l []).width := hover
+      rw [if_pos hlt]
+      obtain ⟨w0, f, hf, e1, e2⟩ := hp.brk hbw hover
+      have := breakGo_pieces_replay env.cw o.width w0.ws w0.pen .normal [] 0 w0.word (Replay.nil _ _) f
+        (by unfold breakApart at hf; exact hf) [] []
+      unfold breakApart
+      simp only [mkWord]
+      rw [e1] at this
+      rw [this, e2]
+  unfold wrapSingleLineSlow
+  simp only [hpipe, halg, wrapAlg]
+  have hff : ∀ lws : List Int, wrapFirstFit (fragOf (α := Int)) [mkWord env.cw l []] lws = [[mkWord env.cw l []]] := by
+    intro lws; simp [wrapFirstFit, ffGo]
+  rw [hff]
+  rw [reassemble_eq_spec o l [] [[mkWord env.cw l []]] 0 n (by simp [mkWord]) rfl]
+  simp only [Option.map_some, Option.some.injEq, specLines, List.getLast?_singleton, List.map_cons, List.map_nil,
+    LineD.render, hind, groupSlice, List.dropLast_singleton, wordsText_nil, mkWord]
+  simp
+
+/-- every line of one paragraph fits the width or has the provenance of an unbreakable fragment
+    (first-fit, ASCII separator, no hyphenation, empty indents, safe paragraph) -/
+theorem line_fits_or_prov (env : Env) (hsp : env.cw SP = 1) (hcw : ∀ c, env.cw c ≤ c.utf8Size)
+    (mo : MinimaOracle Int) (o : Opts)
+    (halg : o.alg = .firstFit) (hsep : o.sep = .ascii) (hspl : o.splitter = .none)
+    (hii : o.initialIndent = []) (hsi : o.subsequentIndent = [])
+    (p : Text) (hsafe : SeqSafe o.splitter p) (n : Nat) (ds : List LineD)
+    (h : wrapSingleLine env mo o p n = some ds) :
+    ∀ d ∈ ds, displayWidth env.cw d.render ≤ o.width ∨ Prov env o d.render := by
+  have hb : Builtin o.splitter := by rw [hspl]; trivial
+  have hind : ∀ k, TW.C05.indentOf o k = [] := by intro k; unfold TW.C05.indentOf; split <;> assumption
+  unfold wrapSingleLine at h
+  by_cases hc : blen p < o.width ∧ (if n = 0 then o.initialIndent else o.subsequentIndent).isEmpty = true
+  · rw [if_pos hc] at h
+    simp only [Option.some.injEq] at h; subst h
+    intro d hd
+    simp only [List.mem_singleton] at hd; subst hd
+    left
+    simp only [LineD.render, List.nil_append, List.append_nil]
+    have h1 := dwFrom_le_blen env.cw hcw .normal (trimEndSp p)
+    have h2 : blen (trimEndSp p) ≤ blen p := by
+      have := congrArg blen (trimEndSp_append_rest p)
+      simp only [blen_append] at this; omega
+    unfold displayWidth; omega
+  · rw [if_neg hc] at h
+    cases hp : pipeline env o p (o.width - displayWidth env.cw o.subsequentIndent) with
+    | none => unfold wrapSingleLineSlow at h; simp [hp] at h
+    | some frs =>
+      have hn := pipeline_hnorm env o hb p hsafe _ frs hp
+      obtain ⟨G, g1, g2, g3⟩ := TW.C02.firstfit_line_width env hsp mo o hb halg p n frs hp hn
+      rw [g1] at h
+      simp only [Option.some.injEq] at h; subst h
+      obtain ⟨c1, c2⟩ := pipeline_contig env o (builtin_inRange _ _ hb) p _ frs hp
+      have hnp := pipeline_noPen env o hb p _ frs hp
+      intro d hd
+      obtain ⟨g, hg, e1, e2, e3⟩ := specLines_mem o G 0 n d hd
+      have hpen : d.pen = [] := by
+        rcases e2 with e2 | ⟨last, hl, e2⟩
+        · exact e2
+        · rw [e2]; exact hnp last (by rw [← g2]; exact List.mem_flatten.mpr ⟨g, hg, hl⟩)
+      have hindent : d.indent = [] := by rcases e3 with e | e <;> rw [e] <;> assumption
+      have hrender : d.render = groupSlice g := by simp [LineD.render, hindent, hpen, e1]
+      rw [hrender]
+      obtain ⟨k, hk⟩ := List.getElem?_of_mem hg
+      match g, hk, hg with
+      | [], _, _ => left; simp [groupSlice, displayWidth, dwFrom]
+      | a :: b :: r, hk, _ =>
+        left
+        have := (g3 k _ hk (by simp)).1
+        rw [hind] at this
+        simpa [displayWidth, dwFrom] using this
+      | [f], hk, hg =>
+        by_cases hfit : displayWidth env.cw (groupSlice [f]) ≤ o.width
+        · exact Or.inl hfit
+        · right
+          have hfm : f ∈ frs := by rw [← g2]; exact List.mem_flatten.mpr ⟨[f], hg, by simp⟩
+          have hslice : groupSlice [f] = f.word := by simp [groupSlice]
+          rw [hslice] at hfit ⊢
+          -- where `f` comes from
+          have hshape : ∃ fw : List Word, fw = findWordsAscii env.cw p ∧
+              frs = (if o.breakWords then breakWords env.cw o.width fw else fw) := by
+            unfold pipeline at hp
+            simp only [hsep, findWords] at hp
+            have hfw : ∀ W ∈ findWordsAscii env.cw p,
+                o.splitter.points env.isAlnum W.word = [] ∧ W.width = displayWidth env.cw W.word := by
+              intro W hW
+              refine ⟨by rw [hspl]; rfl, ?_⟩
+              obtain ⟨t, _, rfl⟩ := List.mem_map.mp hW
+              rfl
+            rw [splitWords_nopoints env o.splitter _ hfw] at hp
+            simp only [hii, hsi, List.isEmpty_nil, if_true, displayWidth, dwFrom, Nat.sub_zero] at hp
+            refine ⟨_, rfl, ?_⟩
+            cases hbw : o.breakWords with
+            | false => simp only [hbw, Bool.false_eq_true, if_false, Option.some.injEq] at hp ⊢; exact hp.symm
+            | true => simp only [hbw, if_true, Option.some.injEq] at hp ⊢; exact hp.symm
+          obtain ⟨fw, hfw, hfrs⟩ := hshape
+          have hwords_nosp := findWordsAscii_noSP env.cw p
+          have hnosp : SP ∉ f.word := by
+            cases hbw : o.breakWords with
+            | false =>
+              rw [hbw] at hfrs; simp only [Bool.false_eq_true, if_false] at hfrs
+              rw [hfrs, hfw] at hfm
+              exact hwords_nosp f hfm
+            | true =>
+              rw [hbw] at hfrs; simp only [if_true] at hfrs
+              rw [hfrs] at hfm
+              obtain ⟨w0, hw0, h | h⟩ := mem_breakWords env.cw o.width fw f hfm
+              · intro hm
+                exact hwords_nosp w0 (by rw [← hfw]; exact hw0) (breakApart_sub env.cw o.width w0 f h.2 SP hm)
+              · rw [h.1]; exact hwords_nosp w0 (by rw [← hfw]; exact hw0)
+          refine ⟨hnosp, ?_, ?_⟩
+          · intro he; rw [he] at hfit; simp [displayWidth, dwFrom] at hfit
+          · intro hbw hover
+            rw [hbw] at hfrs; simp only [if_true] at hfrs
+            rw [hfrs] at hfm
+            obtain ⟨w0, _, h | h⟩ := mem_breakWords env.cw o.width fw f hfm
+            · exact ⟨w0, f, h.2, rfl, (c2 f (by rw [hfrs]; exact hfm)).2⟩
+            · exfalso
+              have := (c2 f (by rw [hfrs]; exact hfm)).2
+              rw [h.1] at this hover
+              omega
+
+/-- **fill is idempotent for the ASCII separator at EVERY width** (first-fit, no hyphenation,
+    empty indents, `break_words` on or off): lines that fit are stable by C05, lines that overflow
+    are single unbreakable fragments and are found, left unsplit, left unbroken
+    (`break_apart_idempotent`) and placed alone again. Hypotheses on the text: the paragraphs and
+    the lines of the first result are safe (`SeqSafe`; e.g. ESC-free) and the lines contain no
+    line feed. -/
+-- @audit TW.C14.fill_idempotent_ascii_every_width
+theorem fill_idempotent_ascii_every_width (env : Env) (hsp : env.cw SP = 1) (hcw : ∀ c, env.cw c ≤ c.utf8Size)
+    (mo : MinimaOracle Int) (hmo : MoShape mo) (o : Opts)
+    (halg : o.alg = .firstFit) (hsep : o.sep = .ascii) (hspl : o.splitter = .none)
+    (hii : o.initialIndent = []) (hsi : o.subsequentIndent = [])
+    (t : Text) (ls : List Text) (hw : wrap env mo o t = some ls)
+    (hsafeT : ∀ p ∈ splitEnding o.lineEnding t, SeqSafe o.splitter p)
+    (hsafeL : ∀ l ∈ ls, SeqSafe o.splitter l) (hno : ∀ l ∈ ls, LF ∉ l) :
+    ∃ f, fill env mo o t = some f ∧ fill env mo o f = some f := by
+  have hb : Builtin o.splitter := by rw [hspl]; trivial
+  have hne := TW.C09.wrap_nonempty env mo hmo o (builtin_inRange _ _ hb) t ls hw
+  have hbare := wrap_lines_bare env mo hmo o hsep hb hii hsi t ls hw
+  -- every line fits or has the provenance
+  have hall : ∀ l ∈ ls, displayWidth env.cw l ≤ o.width ∨ Prov env o l := by
+    unfold wrap at hw
+    cases hd : wrapD env mo o t with
+    | none => simp [hd] at hw
+    | some ds =>
+      simp only [hd, Option.map_some, Option.some.injEq] at hw
+      subst hw
+      unfold wrapD at hd
+      have key : ∀ (paras : List Text), (∀ p ∈ paras, SeqSafe o.splitter p) → ∀ off n ds,
+          wrapParas (blen o.lineEnding.str) (wrapSingleLine env mo o) paras off n = some ds →
+          ∀ d ∈ ds, displayWidth env.cw d.render ≤ o.width ∨ Prov env o d.render := by
+        intro paras
+        induction paras with
+        | nil => intro _ off n ds h d hd; simp only [wrapParas, Option.some.injEq] at h; subst h; simp at hd
+        | cons p ps ih =>
+          intro hs off n ds h d hd
+          simp only [wrapParas] at h
+          split at h
+          · simp at h
+          · next lsd hls =>
+            split at h
+            · next rest hrest =>
+              simp only [Option.some.injEq] at h; subst h
+              rcases List.mem_append.mp hd with hd | hd
+              · obtain ⟨d0, hd0, rfl⟩ := List.mem_map.mp hd
+                exact line_fits_or_prov env hsp hcw mo o halg hsep hspl hii hsi p (hs p (by simp)) n lsd hls d0 hd0
+              · exact ih (fun q hq => hs q (by simp [hq])) _ _ rest hrest d hd
+            · simp at h
+      intro l hl
+      obtain ⟨d, hdm, rfl⟩ := List.mem_map.mp hl
+      exact key _ hsafeT 0 0 ds hd d hdm
+  have hstable : ∀ l ∈ ls, Stable env mo o l := by
+    intro l hl
+    rcases hall l hl with hfit | hprov
+    · apply stable_of_one_line env mo o hb hii hsi l (hbare l hl)
+      intro n
+      cases hp : pipeline env o l (o.width - displayWidth env.cw o.subsequentIndent) with
+      | none => exact absurd hp (fun h => TW.C05.shortcut_sound_ascii_escfree.pipeline_ascii_total env o hsep hb l _ h)
+      | some frs =>
+        have hindent : TW.C05.indentOf o n = [] := by unfold TW.C05.indentOf; split <;> assumption
+        refine ⟨frs, rfl, pipeline_lastOk_ascii env o hsep (builtin_inRange _ _ hb) l _ frs hp, ?_⟩
+        exact TW.C05.fits_one_line_firstfit_safe env hsp mo o hb halg l (hsafeL l hl) n frs hp
+          (by rw [hindent]; simp [displayWidth, dwFrom]; unfold displayWidth at hfit; omega)
+    · by_cases hfit : displayWidth env.cw l ≤ o.width
+      · apply stable_of_one_line env mo o hb hii hsi l (hbare l hl)
+        intro n
+        cases hp : pipeline env o l (o.width - displayWidth env.cw o.subsequentIndent) with
+        | none => exact absurd hp (fun h => TW.C05.shortcut_sound_ascii_escfree.pipeline_ascii_total env o hsep hb l _ h)
+        | some frs =>
+          have hindent : TW.C05.indentOf o n = [] := by unfold TW.C05.indentOf; split <;> assumption
+          refine ⟨frs, rfl, pipeline_lastOk_ascii env o hsep (builtin_inRange _ _ hb) l _ frs hp, ?_⟩
+          exact TW.C05.fits_one_line_firstfit_safe env hsp mo o hb halg l (hsafeL l hl) n frs hp
+            (by rw [hindent]; simp [displayWidth, dwFrom]; unfold displayWidth at hfit; omega)
+      · exact stable_of_prov env hcw mo o halg hsep hspl hii hsi l hprov (by omega)
   obtain ⟨h1, h2⟩ := fill_idempotent_of_stable env mo o t ls hw hne hno hstable
   exact ⟨_, h2, h1⟩
 
